@@ -220,6 +220,13 @@ def _consumer_kwargs(ctx, fi, callee):
                 if not isinstance(kk, ast.Constant):
                     raise AnalysisError("non-constant key in **kwargs dict")
                 out[kk.value] = vv
+            # entries added afterwards: d['k'] = v (possibly under a condition; the
+            # value node keeps its place in the tree, so guards(v) sees it)
+            for s in walk_local(fi.node):
+                if isinstance(s, ast.Assign) and len(s.targets) == 1 and isinstance(s.targets[0], ast.Subscript) \
+                        and norm(s.targets[0].value) == k.value.id and isinstance(s.targets[0].slice, ast.Constant) \
+                        and s.lineno < call.lineno:
+                    out[s.targets[0].slice.value] = s.value
     return call, out
 
 
